@@ -120,10 +120,13 @@ def replay_listing(inp):
             else:
                 src = info if form == 'object' else [info]
             out = os.path.join(d, 'out.txt')
+            add = inp.get('additional')
             try:
                 if inp['function'] == 'extract_parameters':
                     fn(input=src, output_prefix=os.path.join(d, 'x_'), output_suffix='.txt', select_format=sel)
                     out = os.path.join(d, 'x_src_a.txt')
+                elif add:
+                    fn(src, out, select_format=sel, additional=add)
                 else:
                     fn(src, out, select_format=sel)
             except Exception as e:  # noqa: BLE001
@@ -137,9 +140,9 @@ def replay_listing(inp):
                 for i, ln in enumerate(rows):
                     tk = ln.split()
                     m = names.index(tk[1])
-                    want = [inp[p][m] for p in PARS]
-                    got = [float(x) for x in tk[5:5 + len(PARS)]]
-                    if tk[1] != names[ranked[i]] or not np.allclose(got, want, rtol=2e-3):
+                    want = [inp[p][m] for p in PARS] + ([add[k][tk[1]] for k in add] if add else [])
+                    got = [float(x) for x in tk[5:5 + len(want)]]
+                    if tk[1] != names[ranked[i]] or not np.allclose(got, want, rtol=2e-3, atol=1e-300):
                         return True, {'row': i, 'line': ln, 'expected_parameters': want}
             elif inp['function'] == 'extract_parameters':
                 rows = lines[1:1 + nsel]
@@ -148,6 +151,16 @@ def replay_listing(inp):
                     m = ranked[i]
                     if tk[3] != names[m] or not np.allclose([float(x) for x in tk[4:4 + len(PARS)]], [inp[p][m] for p in PARS], rtol=2e-3):
                         return True, {'row': i, 'line': ln}
+            elif nsel > 0:
+                tk = lines[3].split()
+                vals = [float(x) for x in tk[3:]]
+                series = [inp['chi2'][:nsel], inp['av'][:nsel], inp['sc'][:nsel]] + [[inp[p][ranked[i]] for i in range(nsel)] for p in PARS]
+                if add:
+                    series += [[add[k][names[ranked[i]]] for i in range(nsel)] for k in add]
+                for q, ser in enumerate(series):
+                    want3 = [min(ser), ser[0], max(ser)]
+                    if not np.allclose(vals[3 * q:3 * q + 3], want3, rtol=2e-3, atol=1e-300):
+                        return True, {'quantity': q, 'printed (min, best, max)': vals[3 * q:3 * q + 3], 'expected': want3}
             return False, {}
     finally:
         shutil.rmtree(d, ignore_errors=True)
@@ -239,6 +252,7 @@ def check_listing(c, cl, function, rec, ranked):
     def inputs(m):
         return {'function': function, 'names': names, 'perm': list(rec['perm']), 'ranked': list(ranked), 'form': rec['form'],
                 'select': [sel[0], mval(m, sel[1]) if sel[1] is not None else None],
+                'additional': None if not rec['add'] else {k: {n: mval(m, x) for n, x in v.items()} for k, v in rec['add'].items()},
                 'chi2': mval(m, rec['chi2']), 'av': mval(m, rec['av']), 'sc': mval(m, rec['sc']), **{p: mval(m, cols[p]) for p in PARS}}
     if function == 'write_parameters':
         head = lines[3].split()
@@ -312,7 +326,9 @@ def configs(tier, seed):
         if not q:
             cfgs.append(Config('%s nm=4 ranking=(3,1,0,2)' % function, h_listing(function, 4, (3, 1, 0, 2), [('N', 3), ('A', None)], forms=('file',)), 6000))
     for function in ('write_parameters', 'write_parameter_ranges'):
-        cfgs.append(Config('%s nm=2 additional parameters' % function, h_listing(function, 2, (1, 0), [('A', None)], forms=('object',), with_additional=True), 1500))
+        cfgs.append(Config('%s nm=2 additional parameters ranking=(1,0)' % function, h_listing(function, 2, (1, 0), [('A', None)], forms=('object',), with_additional=True), 1500))
+        cfgs.append(Config('%s nm=2 additional parameters ranking=(0,1)' % function, h_listing(function, 2, (0, 1), [('A', None), ('N', 1)], forms=('object', 'file'), with_additional=True), 1500))
+        cfgs.append(Config('%s nm=3 additional parameters ranking=(0,2,1)' % function, h_listing(function, 3, (0, 2, 1), [('A', None), ('N', 2)], forms=('list',), with_additional=True), 3000))
     return cfgs
 
 
